@@ -3604,6 +3604,7 @@ bn_mod_sqrt(bn_p bn, bn_p m, bn_mod_rd_data_p mod_rd_data) {
 		bn_t b, t, bn_inv;
 
 		bits = (BN_DIGIT_BITS + (MAX(bn->digits, m->digits) * 2 * BN_DIGIT_BITS));
+		bits = MAX(bits, (m->count * BN_DIGIT_BITS)); /* bn_mod_exp() wants count >= m->count. */
 		BN_RET_ON_ERR(bn_init(&tm, bits));
 		BN_RET_ON_ERR(bn_init(&b, bits));
 		BN_RET_ON_ERR(bn_init(&t, bits));
